@@ -247,6 +247,11 @@ def bounded(rep, tier):
         yield 'where', Select(targets=[Identifier('a')], from_table=Identifier('t'), where=BinaryOperation('=', args=[Identifier('a'), Constant(v)]))
         yield 'in-list', Select(targets=[Identifier('a')], from_table=Identifier('t'), where=BinaryOperation('in', args=[Identifier('a'), Tuple([Constant(v), Constant('z')])]))
         yield 'insert', Insert(table=Identifier('t'), columns=[Identifier('c')], values=[[Constant(v)]])
+        try:
+            # rows given as plain python values (is_plain): get_string still has to inline them as literals, only get_exec_params may use placeholders
+            yield 'insert-plain', Insert(table=Identifier('t'), columns=[Identifier('c')], values=[[v]], is_plain=True)
+        except TypeError:
+            pass
         yield 'update', Update(table=Identifier('t'), update_columns={'c': Constant(v)}, where=BinaryOperation('=', args=[Identifier('k'), Constant(1)]))
         # a statement the renderer refuses (so that the documented fallback to the tree's own text is what the caller gets)
         yield 'refused-join', Select(targets=[Identifier('a')], from_table=Join(left=Identifier('t1'), right=Identifier('t2'), join_type='RIGHT JOIN',
@@ -255,7 +260,7 @@ def bounded(rep, tier):
         reg0 = 'backslash' if '\\' in v else ('squote' if "'" in v else 'other')
         reg = 'backtick' if (reg0 == 'other' and '`' in v) else reg0
         for pos, q in positions(v):
-            if tier == 'quick' and pos in ('in-list', 'update', 'refused-join') and len(v) > 1:
+            if tier == 'quick' and pos in ('in-list', 'update', 'refused-join', 'insert-plain') and len(v) > 1:
                 continue
             for tgt, kind in TARGETS.items():
                 n += 1
@@ -286,28 +291,36 @@ def bounded(rep, tier):
             # the tree's own string, read by the own lexer
             if pos in ('select-list', 'insert'):
                 n += 1
+                structure = False
                 try:
                     text = q.to_string()
                     q2 = parse_sql(text, dialect='mindsdb')
+                    if pos == 'select-list':
+                        structure = type(q2) is not type(q) or len(q2.targets) != 1
+                    else:
+                        structure = type(q2) is not type(q) or len(q2.values) != 1 or len(q2.values[0]) != 1
                     got = q2.targets[0].value if pos == 'select-list' else q2.values[0][0].value
-                    ok = got == v
+                    ok = got == v and not structure
                     obs = f'`{text[:80]}` -> {got!r}'
                 except Exception as e:
-                    ok, obs = False, f'`{q.to_string()[:80]}` -> {type(e).__name__}'
+                    ok, obs, structure = False, f'`{q.to_string()[:80]}` -> {type(e).__name__}', True
                 if not ok:
-                    fails.setdefault(f'C07.bounded.to_string.{pos}.{reg0}', (repr(v), obs))
+                    # `.structure`: the text is rejected or has another shape (the literal ended early / stayed open); otherwise only the value read back differs
+                    fails.setdefault(f'C07.bounded.to_string.{pos}.{reg0}' + ('.structure' if structure else ''), (repr(v), obs))
         # raw python value inside Insert (to_value -> repr)
         n += 1
+        structure = False
         try:
             text = Insert(table=Identifier('t'), columns=[Identifier('c')], values=[[v]]).to_string()
             q2 = parse_sql(text, dialect='mindsdb')
+            structure = type(q2).__name__ != 'Insert' or len(q2.values) != 1 or len(q2.values[0]) != 1
             got = getattr(q2.values[0][0], 'value', None)
-            ok = got == v
+            ok = got == v and not structure
             obs = f'`{text[:80]}` -> {q2.values[0][0]!r}'
         except Exception as e:
-            ok, obs = False, f'{type(e).__name__}'
+            ok, obs, structure = False, f'{type(e).__name__}', True
         if not ok:
-            fails.setdefault(f'C07.bounded.to_string.insert-raw-value.{reg0}', (repr(v), obs))
+            fails.setdefault(f'C07.bounded.to_string.insert-raw-value.{reg0}' + ('.structure' if structure else ''), (repr(v), obs))
     # numeric / boolean constants: each literal of a statement must be rendered as it is rendered alone by a fresh renderer, whatever other constants
     # the statement (or an earlier statement of the same renderer) contains - values that compare equal across types (1, 1.0, True) included
     import re as _re
